@@ -75,8 +75,8 @@ def gen_process_item(w, m):
     if not models:
         return None
     model = w.choice(models)
-    steps = w.choice([1, 2, 3, 4, 5, 6, 8, 10, 12])
-    dt = wg.rnd(w, 0.05, 0.5, 3)
+    steps = w.choice([1, 2, 3, 4, 5, 6, 8, 10, 12]) if w.random() < 0.93 else w.choice([30, 60])
+    dt = wg.rnd(w, 0.05, 0.5, 3) if steps <= 12 else wg.rnd(w, 0.02, 0.08, 3)
     item = {"kind": "process", "model": model, "membrane": m["dir"], "mixture": m["mixture"], "steps": steps, "dt": dt,
             "calc": "UNIQUAC" if w.random() < 0.15 else "NRTL"}
     if w.random() < 0.2:
@@ -161,7 +161,7 @@ def gen_curve_item(w, m):
     comps = sorted(round(w.uniform(0.01, 0.99), 6) for _ in range(n))
     T = wg.rnd(w, 293.15, 373.15, 2)
     item = {"kind": "curve", "how": "hand", "mixture": mix, "T": T, "comps": [[x, basis] for x in comps],
-            "membrane_name": w.choice(["hand made", "M-1", "x"]), "comments": w.choice([None, "made by hand", "a, b"])}
+            "membrane_name": w.choice(["hand made", "M-1", "x", 'M,1 "q"']), "comments": w.choice([None, "made by hand", "a, b", 'say "hi", twice'])}
     if how == "hand-flux":
         item["fluxes"] = [[wg.logu(w, 1e-9, 1e3, 9), wg.logu(w, 1e-9, 1e3, 9)] for _ in comps]
         mode = w.choice(["none", "none", "pp", "pt"])
